@@ -104,6 +104,17 @@ def seed_cases(rng, tier):
             if topo == "2dv":
                 attrs["vertical_dimensions"] = "s_rho: s_w (padding: none)"
         cases.append({"kind": "parse", "convention": "sgrid", "sizes": sizes, "grid_attrs": attrs})
+    # a user's grid ufunc over 2-3 axes whose function reads the corner of the halo: per-axis rules and
+    # fill values differ, so the corner tells in which order the axes were padded
+    for k in range(6 if tier == "quick" else 30):
+        names = rng.sample(["X", "Y", "Z", "lon", "lat", "T"], rng.choice([2, 2, 3]))
+        dummies = rng.sample(["a", "b", "c", "X", "Y", "p", "q", "time"], len(names))
+        bw = [[d, [1, 1]] for d in dummies]
+        rng.shuffle(bw)
+        fills = rng.sample([1.0, 2.0, 5.0, -3.0], len(names))
+        cases.append({"kind": "ufunc", "axes": names, "dummies": dummies, "bw": bw,
+                      "boundary": rng.choice(["fill", dict(zip(names, rng.sample(["fill", "extend", "fill"], len(names))))]),
+                      "fill": dict(zip(names, fills))})
     regs = [[[["X"], ["dx_c"]], [["Y"], ["dy_c"]], [["Z"], ["dz_c"]], [["X", "Y"], ["a_cc"]]],
             [[["X"], ["dx_c"]], [["Y"], ["dy_c"]], [["Z"], ["dz_c"]]],
             [[["X", "Y"], ["a_cc"]], [["Z"], ["dz_c"]], [["X"], ["dx_c"]]]]
